@@ -154,6 +154,15 @@ def _rebuild(col, rule="C03.R4"):
             col.add(rule, f"Manager.{name}#rebuild-through-register", recv_ok and t_ok and not conds, sx.loc(ev),
                     f"{name} rebuilds the indices by registering every task of self.tasks (unconditionally)",
                     f"{S.show(ev.term)} under {[S.show(c) for c in conds]}")
+        if name == "clone":
+            # the regenerated manager knows the same containers: labels resolve in load()/copy_expr_from and in generated functions
+            cont = S.sattr("containers")
+            carried = [ev for ev, m in sx.calls_some(("call", ("attr", ("attr", S.V("o"), "containers"), "update"), (cont,), ()))
+                       if S.is_call_of(m["o"], ("glob", "Manager"))]
+            carried += [e for e in sx.of_kind("store") if e.target[:1] == ("attr",) and e.target[2] == "containers" and S.is_call_of(e.target[1], ("glob", "Manager"))
+                        and any(x == cont for x in S.subterms(e.value))]
+            col.add(rule, "Manager.clone#carries-the-containers", bool(carried) and all(not sx.conds(e.nid) for e in carried), sx.loc(carried[0]) if carried else sx.loc(sx.fn),
+                    "the regenerated manager receives the label -> container table of the source", "")
         fx, unk = index_effects(sx)
         hand = [e for e in fx if e.op != "rebind"]
         col.add(rule, f"Manager.{name}#no-hand-written-index-writes", not hand and not unk, sx.loc(hand[0].nid) if hand else sx.loc(sx.fn),
